@@ -123,6 +123,7 @@ func (v *VMap) validate(prefix string, tv reflect.Value) *VMap {
 					v.vc.initValid2FieldsMap(&name2Value{
 						validName:  validName,
 						fieldName:  key,
+						owner:      prefix,
 						cusMsg:     cusMsg,
 						reflectVal: val,
 					})
